@@ -502,6 +502,21 @@ where
     }
 }
 
+/// stub of write_zeros for contexts in which zeroing must not happen (regular files): reaching it is a violation
+pub(crate) fn stub_no_zeros<IO: ReadWriteSeek>(_disk: &mut IO, _len: u64) -> Result<(), IO::Error> {
+    assert!(false, "a cluster allocated for a regular file must not be zeroed through write_zeros");
+    Ok(())
+}
+
+pub(crate) static mut ZEROED_LEN: u64 = 0;
+
+/// contract stub of write_zeros (its own contract: write_zeros_contract / Verus): advances the stream by len
+pub(crate) fn stub_zeros_contract<IO: ReadWriteSeek>(disk: &mut IO, len: u64) -> Result<(), IO::Error> {
+    unsafe { ZEROED_LEN = len };
+    disk.seek(SeekFrom::Current(len as i64))?;
+    Ok(())
+}
+
 fn alloc_counts(bpb: BiosParameterBlock, zero: bool) {
     let total = bpb.total_clusters();
     let cs = bpb.cluster_size() as u64;
@@ -916,7 +931,51 @@ fn write_zeros_contract() {
 // mounting (C07, C13)
 // ------------------------------------------------------------------------------------------------
 
-// @obl props=C07,C13,C05 tier=quick fns=FileSystem::new,BootSector::deserialize,BootSector::validate,FsInfoSector::deserialize,FsInfoSector::validate_and_fix timeout=900
+// @obl props=C05,C07,C12,C13 tier=thorough timeout=3000 fns=FileSystem::new,FsInfoSector::deserialize,FsInfoSector::validate_and_fix
+// @bound bounded: the FAT32 fixture geometry (concrete valid boot sector built with the real serializer); the status byte and the FS-info count / hint are symbolic
+// @desc mounting a valid FAT32 volume, for every status byte and every stored free count / next-free hint: Ok; no device write; the FS-info write-back latch is CLEAR (a read-only session that ends in unmount therefore writes nothing); the stored count is dropped when the dirty bit is set or it exceeds the cluster count; the hint is dropped outside [2, total+2]; the in-memory flags are the decoded status byte
+#[kani::proof]
+#[kani::unwind(514)]
+fn new_on_valid_fat32() {
+    let mut bpb = bpb_fat32();
+    let m: u8 = kani::any();
+    bpb.reserved_1 = m;
+    bpb.ext_sig = 0x29;
+    let total = bpb.total_clusters();
+    let boot = crate::boot_sector::verif_kani::boot_image(bpb);
+    let count: u32 = kani::any();
+    let hint: u32 = kani::any();
+    let mut dev = MemDev::<1024>::zeroed();
+    let mut i = 0;
+    while i < 512 {
+        dev.data[i] = boot[i];
+        i += 1;
+    }
+    dev.pos = 512;
+    let info = FsInfoSector { free_cluster_count: Some(count), next_free_cluster: Some(hint), dirty: false };
+    assert!(info.serialize(&mut dev).is_ok());
+    dev.pos = 0;
+    dev.writes = 0;
+    let r = FileSystem::new(dev, opts(false, SymTime::fixed()));
+    assert!(r.is_ok());
+    let fs = r.unwrap();
+    assert!(fs.fat_type == FatType::Fat32 && fs.total_clusters == total);
+    {
+        let fi = fs.fs_info.borrow();
+        assert!(!fi.dirty);
+        let want_count = if m & 1 != 0 || count == 0xFFFF_FFFF || count > total { None } else { Some(count) };
+        assert!(fi.free_cluster_count == want_count);
+        let want_hint = if hint == 0xFFFF_FFFF || hint < 2 || hint > total + 2 { None } else { Some(hint) };
+        assert!(fi.next_free_cluster == want_hint);
+    }
+    assert!(fs.current_status_flags.get() == FsStatusFlags::decode(m));
+    assert!(fs.disk.borrow().writes == 0);
+    kani::cover!(m & 1 != 0);
+    kani::cover!(count <= total && m & 1 == 0);
+    core::mem::forget(fs);
+}
+
+// @obl props=C07,C13,C05 tier=thorough fns=FileSystem::new,BootSector::deserialize,BootSector::validate,FsInfoSector::deserialize,FsInfoSector::validate_and_fix timeout=3000
 // @desc FileSystem::new over a write-forbidden device that returns ARBITRARY bytes for the boot sector and the FS-info sector, strict and non-strict: returns Ok or Err(CorruptedFileSystem) (no fault is injected), never panics or overflows, never writes; on Ok the volume geometry satisfies wf_bpb, the cached FAT type / first data sector / root sectors / cluster count are the derived ones, the FS-info write-back latch is clear, the cached free count is dropped if the dirty bit was set and otherwise <= total clusters, the hint lies in [2, total+2], and the in-memory status flags equal the mount-time byte
 #[kani::proof]
 #[kani::unwind(14)]
